@@ -441,6 +441,19 @@ pub fn judge(r: &DuoRun, cfg: &OracleCfg, o: &mut Outcome) -> (WireModel, EndInf
                 }
             }
         }
+        // ---- every byte accepted by a write becomes readable: the reader got end-of-stream short of
+        //      what the peer's successful writes had accepted, although that peer never aborted the
+        //      stream and nothing ended the connection
+        if !ei.any_fault && led.task_end[0].is_none() && led.task_end[1].is_none() {
+            for ws in 0..2 {
+                let (wr, rd) = (&s.sides[ws], &s.sides[1 - ws]);
+                if let Some(eof) = rd.eof {
+                    if !wr.aborted && rd.read_total < wr.accepted {
+                        o.violate("C04:bytes-never-readable", format!("stream {tag}: the reading application at endpoint {} kept reading and got end-of-stream (seq {eof}) after {} bytes, but writes at endpoint {} had accepted {} bytes and that application never aborted the stream (windows {} / {}, thresholds {} / {})", ep_of(1 - ws), rd.read_total, ep_of(ws), wr.accepted, plan.eps[0].rwnd, plan.eps[1].rwnd, plan.eps[0].threshold, plan.eps[1].threshold));
+                    }
+                }
+            }
+        }
         // ---- the open call itself
         if s.open_inv.is_some() && s.open_ret.is_none() {
             if ei.judged[opener] {
